@@ -127,7 +127,8 @@ def metaRead (file : ByteArray) : Outcome String Meta :=
     | none => .panic "Meta::decode: assert!(buf.len() >= META_SIZE)"
 
 /-- `Meta::encode_to` into a zeroed page (what `Meta::write` writes) -/
-def metaPage (m : Meta) : ByteArray := (encodeMetaL m ++ List.replicate (PAGE - META_SIZE) 0).toByteArray
+def pagePad : List UInt8 := List.replicate (PAGE - META_SIZE) 0
+def metaPage (m : Meta) : ByteArray := (encodeMetaL m ++ pagePad).toByteArray
 
 /-! ## `ht_file.rs` -/
 
@@ -311,9 +312,10 @@ def Dir.put (d : Dir) (f : FileName) (b : ByteArray) : Dir :=
 structure Parts (Tree Log : Type) where
   /-- `beatree::Tree::open(ln_freelist_pn, bbn_freelist_pn, ln_bump, bbn_bump, bbn, ln, workers, leaf_cache_size)` -/
   treeOpen : (ln bbn : ByteArray) → (lnFl bbnFl lnBump bbnBump : Nat) → Outcome String Tree × List Eff
-  /-- `bitbox::recover(sync_seqn, ht, wal, meta_map, seed)`: the table file and the meta map afterwards -/
+  /-- `bitbox::recover(sync_seqn, ht, wal, meta_map, seed)`: the table file and the bytes of the meta map afterwards
+  (the map is mutated in place: its bucket count cannot change) -/
   recover : (seqn : Nat) → (seed0 seed1 : Nat) → (ht wal : ByteArray) → HtOpened →
-    Outcome String (ByteArray × HtOpened) × List Eff
+    Outcome String (ByteArray × ByteArray) × List Eff
   /-- `Rollback::read(max_rollback_log_len, dir, start_live, end_live)` -/
   rollbackRead : (maxLen start stop : Nat) → List (FileName × ByteArray) → Outcome String Log × List Eff
 
@@ -346,14 +348,17 @@ structure OpenFlags where
   numPagesFromOptions : Bool := false
 deriving Repr, DecidableEq
 
+/-- what precedes the `flock` call: (`create_dir_all` when creating,) opening the directory, opening the lock file -/
+def lockPre (d : Dir) : List Eff :=
+  if !d.present || d.files.isEmpty then [Eff.mkdirAll, .openDir, .openLockCreate] else [.openDir, .openLockCreate]
+
 /-- **phase 1**: everything up to and including `Flock::lock` — `should_create`, then either the head of `create`
 (`create_dir_all`, open the directory, lock) or the `else` branch (open the directory, lock).  Result: whether the
 database is to be created; `err` when the lock is refused -/
 def lockPhase (d : Dir) : Outcome String Bool × List Eff :=
   let shouldCreate := !d.present || d.files.isEmpty
-  let pre := if shouldCreate then [Eff.mkdirAll, .openDir, .openLockCreate] else [.openDir, .openLockCreate]
-  if d.lockedByOther then (.err "Failed to lock directory", pre ++ [.flock false])
-  else (.ok shouldCreate, pre ++ [.flock true])
+  if d.lockedByOther then (.err "Failed to lock directory", lockPre d ++ [.flock false])
+  else (.ok shouldCreate, lockPre d ++ [.flock true])
 
 /-- the rest of `create` (after the lock): `meta` (`File::create`, `Meta::write` = write + fsync), `bitbox::create`
 (`ht`: create, `set_len`, fsync; `wal`: create, fsync), `beatree::create` (`ln`, `bbn`: create, `set_len` to one page,
@@ -382,7 +387,10 @@ def dbOpen (dbg : Bool) (P : Parts Tree Log) (seqn numPages seed0 seed1 : Nat) (
   | .ok h =>
     if wal.size > 0 then
       let r := P.recover seqn seed0 seed1 ht wal h
-      (r.1, .read .ht :: r.2)
+      (match r.1 with
+        | .ok (ht', mb) => .ok (ht', { h with metaBytes := mb })
+        | .err e => .err e
+        | .panic s => .panic s, .read .ht :: r.2)
     else (.ok (ht, h), [.read .ht])
 
 /-- **phase 2** of `Store::open` on a directory whose lock is held: the I/O pool, the five files opened read-write
